@@ -564,6 +564,12 @@ fn run(scn: &Scn, ctx: &mut Ctx) -> Result<(), Violation> {
         let notif_before = s.tui.verif_notification().is_some();
         let input_before: String = s.tui.verif_input_field().current().iter().collect();
         let what = format!("{:?} with input {:?}", e, input_before);
+        if let Ev::Char(c) = e {
+            use unicode_width::UnicodeWidthStr;
+            if unicode_width::UnicodeWidthChar::width(*c).unwrap_or(0) > 1 && s.w >= 76 && s.h >= 28 && input_before.width() + 2 > (s.w as usize).saturating_sub(37) {
+                ctx.cov.probe("wide-character-typed-into-a-full-input-field");
+            }
+        }
         // workload restriction: the simulated user does not submit `next N` with an N that would
         // keep the session busy for minutes (the command is executed faithfully, N clock triggers;
         // that is slow, not wrong). Such an Enter is dropped from the script.
@@ -671,6 +677,13 @@ fn run(scn: &Scn, ctx: &mut Ctx) -> Result<(), Violation> {
                         ctx.cov.probe("enter-on-empty-line=clock");
                     } else {
                         let verdict = r_cmd(&input_before);
+                        if matches!(verdict, Verdict::Effect(Effect::SetIn(..)) | Verdict::Effect(Effect::SetIrg(_))) {
+                            let val = input_before.rsplit('=').next().unwrap_or("").trim_matches(|c| c == ' ' || c == '\t').to_ascii_lowercase();
+                            let digits = val.trim_start_matches("0x").trim_start_matches("0b");
+                            if digits.len() > 1 && digits.starts_with('0') && (val.starts_with("0x") && digits.len() > 2 || val.starts_with("0b") && digits.len() > 8 || !val.starts_with("0x") && !val.starts_with("0b")) {
+                                ctx.cov.probe("zero-padded-byte-value-accepted");
+                            }
+                        }
                         ctx.cov.set("command-kind-x-verdict", mix(
                             0,
                             match &verdict {
@@ -799,8 +812,16 @@ fn byte_value(rng: &mut Rng) -> String {
         4 => 300 + rng.below(100000) as u32,
         _ => rng.below(256) as u32,
     };
-    match rng.below(7) {
+    match rng.below(9) {
         0 | 1 => format!("{}", n),
+        // zero-padded spellings: the value counts, not the number of digits
+        7 => match rng.below(4) {
+            0 => format!("0x{:03X}", n),
+            1 => format!("0x{:0w$x}", n, w = 3 + rng.usize(8)),
+            2 => format!("{:0w$}", n, w = 4 + rng.usize(4)),
+            _ => format!("0b{:0w$b}", n, w = 9 + rng.usize(6)),
+        },
+        8 => format!("0x{:02X}", n),
         2 | 3 => format!("0x{:X}", n),
         4 => format!("0x{:x}", n),
         5 => format!("0b{:b}", n),
@@ -974,6 +995,17 @@ impl Check for C17 {
                     }
                 }
                 21 => Ev::Idle(1 + rng.below(3) as u8),
+                22 if use_multibyte && rng.chance(1, 3) => {
+                    // a field full of double-width characters (optionally behind some narrow text)
+                    for _ in 0..rng.below(3) * 10 {
+                        events.push(Ev::Char('x'));
+                    }
+                    let c = *rng.pick(&['漢', '😀', '字', 'Ｗ']);
+                    for _ in 0..5 + rng.below(60) {
+                        events.push(Ev::Char(if rng.chance(1, 8) { 'i' } else { c }));
+                    }
+                    continue;
+                }
                 22 => Ev::Key("Enter".into()),
                 _ => Ev::Key("Backspace".into()),
             };
